@@ -128,7 +128,10 @@ pub fn run_case(c: &Sexp) -> R<Sexp> {
                 Some(r) => r,
                 None => match crate::ops_goals::run_case(c) {
                     Some(r) => r,
-                    None => Err(format!("unknown case: {}", c.to_text())),
+                    None => match crate::ops_parse::run_case(c) {
+                        Some(r) => r,
+                        None => Err(format!("unknown case: {}", c.to_text())),
+                    },
                 },
             },
         },
